@@ -5,6 +5,8 @@ is `O` with its AST-valued fields in ast.iter_fields order (what ast.NodeVisitor
 Binding forms that are not assignments to an ast.Name (`except E as n`, `import m as n`, `case n` / `case [*n]` /
 `case {**n}`, `class n`, a nested `async def n`) are given to the model as what the real visitor makes of them
 since repair D81: a store of that name (a synthetic `N n s` node) ahead of the node's own children.
+Since repair D85 a nested plain `def n` is a store of `n` followed by the function: `O 2 (N n s) (F …)`
+(Model/GrammarDef.namedDef; a lambda binds no name and stays a bare `F`).
 The ROOT is serialised as a function definition when it is a (Async)FunctionDef (CallListerVisitor.__init__ reads
 .args and .body of whatever it is given); a *nested* async def is an `O` node, like any node without a handler."""
 import ast
@@ -43,6 +45,9 @@ def ser(node, out, root=False, nowrap=False):
             else:
                 out += ['K', nid(k.arg)]
                 ser(k.value, out)
+    elif isinstance(node, ast.FunctionDef) and not root and not nowrap:
+        out += ['O', '2', 'N', nid(node.name), 's']
+        ser(node, out, nowrap=True)
     elif isinstance(node, (ast.FunctionDef, ast.Lambda)) or (root and isinstance(node, ast.AsyncFunctionDef)):
         a = node.args
         body = node.body if isinstance(node.body, list) else [node.body]
